@@ -1076,13 +1076,18 @@ def xn_helper_stream(ctx, rng, count, strata=None):
             ctx.count("c09.helper.model", inp, nontrivial=False, branch="float_overflow_not_modelled")
             continue
         try:
-            got = float(helper(n, y))
+            with warnings.catch_warnings(), np.errstate(all="ignore"):
+                warnings.simplefilter("ignore")
+                got = float(helper(n, y))
         except TypeError:            # same name, another signature: not the function the model mirrors
             ctx.notes.append("private helper _helper_sum_fact_xk has another signature: tie unavailable")
             break
+        except Exception as e:  # noqa -- M's value is an ordinary number here (the float-overflow class was left out above)
+            got = f"{type(e).__name__}: {e}"[:160]
         m = rd(ctx.lean(f"helper {n} {w(y)}"))
         ctx.count("c09.helper.model", inp, nontrivial=n >= 2 and y != 0, branch=None if strata is None else "high_order")
-        if abs(fr(got) - m) > fr(2.0 ** -40) * abs(m):
+        # a non-finite value or an exception is a broken tie as well (common.fr refuses inf / nan)
+        if isinstance(got, str) or not math.isfinite(got) or abs(fr(got) - m) > fr(2.0 ** -40) * abs(m):
             ctx.fail("corr", "c09.helper.model", inp, {"name": "Integrals.helperSum vs _helper_sum_fact_xk", "implementation": got,
                                                        "model": str(m)[:60]}, cls=dict(n=n))
     shapes = ["pos", "neg", "straddle", "pos_inf", "neg_inf", "line", "zero_left", "zero_right", "degenerate"]
@@ -1704,10 +1709,15 @@ def replay(ctx, rec):
         if "y" in d:
             if not hasattr(toolint, "_helper_sum_fact_xk"):
                 return
-            got = float(toolint._helper_sum_fact_xk(d["n"], d["y"]))
+            try:
+                with warnings.catch_warnings(), np.errstate(all="ignore"):
+                    warnings.simplefilter("ignore")
+                    got = float(toolint._helper_sum_fact_xk(d["n"], d["y"]))
+            except Exception as e:  # noqa
+                got = f"{type(e).__name__}: {e}"[:160]
             m = rd(ctx.lean(f"helper {d['n']} {w(d['y'])}"))
             ctx.count("c09.helper.model", d)
-            if abs(fr(got) - m) > fr(2.0 ** -40) * abs(m):
+            if isinstance(got, str) or not math.isfinite(got) or abs(fr(got) - m) > fr(2.0 ** -40) * abs(m):
                 ctx.fail("corr", "c09.helper.model", d, {"name": "Integrals.helperSum vs _helper_sum_fact_xk", "implementation": got, "model": str(m)[:60]})
             return
         xnexp_case(ctx, dict(d, a=float(d["a"]), b=float(d["b"])), rec.get("cls", {}))
